@@ -10,15 +10,20 @@ source sub-graph (what is reachable from the source, when the destination contai
 it). `LocalUpd S M g g'` says that `g'` arises from `g` by changes on the side only:
 
 * every node outside `S` keeps its attributes; its link list can only lose entries, and never one
-  that leads to a node outside `S` (only global deletion by id removes anything at all);
+  that leads to a node outside `S` (only the file-wide `delete_all` of objects of the side removes
+  anything at all: the links that lead to the deleted objects);
 * links added to nodes of `S` lead to nodes of `S`; ids given to nodes of `S` come from the id supply
   at or above `M`.
 
 The relation is reflexive and transitive, holds for the primitive graph operations addressed to
-nodes of `S`, and carries the invariants `SideInv` (the side is link-closed and owns the future keys)
-and `IdInv` (ids of the side and of the rest are disjoint: the rest's ids lie in `A`, the side's and
-all future ones outside). `C20Hist.lean` / `C20HistDel.lean` show it for every API call addressed to
-the side, and for histories.
+nodes of `S` — including `Graph.deleteObjs` of nodes of `S` (`lu_deleteObjs`: deletion is by object
+since the repair `fix: deleting an entity also deleted every same-id copy file-wide`, so no hypothesis
+about ids is involved) — and carries the invariant `SideInv` (the side is link-closed and owns the
+future keys). `IdInv` (ids of the side and of the rest are disjoint: the rest's ids lie in `A`, the
+side's and all future ones outside) is carried too (`LocalUpd.idInv`), but no step needs it any more:
+it is a fact about the id policy (regenerated ids stay apart through every history), not a
+precondition of independence. `C20Hist.lean` / `C20HistDel.lean` show `LocalUpd` for every API call
+addressed to the side, and for histories.
 -/
 namespace Nix.Store.C20
 open Nix.Store Nix.Store.Graph Nix.Store.Lemmas
@@ -209,20 +214,19 @@ theorem lu_createLinkIn (g : Graph) {grp t : Nat} (n : String) (hp : S grp) (ht 
   · exact (lu_delLink g n hp).trans (lu_addLink _ n hp ht)
   · exact lu_addLink g n hp ht
 
-/-- global deletion of ids that no node outside the side carries -/
-theorem lu_deleteAll (g : Graph) (ids : List String)
-    (hno : ∀ x, ¬ S x → ∀ i, g.entityId x = some i → i ∉ ids) : LocalUpd S M g (g.deleteAll ids) where
-  attrs x _ a := getAttr_deleteAll g ids x a
+/-- `delete_all(objs)` of objects of the side: deletion is by object (node key), so nothing about ids is
+needed — the links that go are exactly those that lead to the given nodes, all of them on the side -/
+theorem lu_deleteObjs (g : Graph) (ks : List Nat) (hks : ∀ k ∈ ks, S k) : LocalUpd S M g (g.deleteObjs ks) where
+  attrs x _ a := getAttr_deleteObjs g ks x a
   filt x _ := by
-    refine ⟨keepLink g ids, links_deleteAll g ids x, ?_⟩
+    refine ⟨keepObj ks, links_deleteObjs g ks x, ?_⟩
     intro l hl2
-    unfold keepLink
-    cases hi : g.entityId l.2 with
-    | none => rfl
-    | some i => simpa using hno l.2 hl2 i hi
+    unfold keepObj
+    have : l.2 ∉ ks := fun h => hl2 (hks _ h)
+    simpa using this
   nk := Nat.le_refl _
   ni := Nat.le_refl _
-  links k _ l hl := .inl ((links_deleteAll_sublist g ids k).subset hl)
-  ids k _ i hi := by rw [entityId_eq, getAttr_deleteAll] at hi; exact .inl hi
+  links k _ l hl := .inl ((links_deleteObjs_sublist g ks k).subset hl)
+  ids k _ i hi := by rw [entityId_eq, getAttr_deleteObjs] at hi; exact .inl hi
 
 end Nix.Store.C20
